@@ -1,8 +1,8 @@
 package vsim
 
 import (
-	"github.com/relab/hotstuff/internal/proto/hotstuffpb"
 	"fmt"
+	"github.com/relab/hotstuff/internal/proto/hotstuffpb"
 
 	"github.com/relab/hotstuff"
 	"github.com/relab/hotstuff/internal/proto/clientpb"
@@ -15,8 +15,8 @@ import (
 // It signs only with its own key and may reuse any signature it has seen.
 type byzState struct {
 	serve    map[hotstuff.Hash]*hotstuff.Block // fabricated blocks it serves to block fetches
-	refuse   map[hotstuff.Hash]bool           // blocks it currently refuses to serve
-	rogue    *vk.Rogue                        // bls12 rogue key registered at the other replicas (nil otherwise)
+	refuse   map[hotstuff.Hash]bool            // blocks it currently refuses to serve
+	rogue    *vk.Rogue                         // bls12 rogue key registered at the other replicas (nil otherwise)
 	blocks   []*hotstuff.Block
 	qcs      []hotstuff.QuorumCert
 	tcs      []hotstuff.TimeoutCert
